@@ -687,6 +687,18 @@ pub fn run(tier: Tier) -> Run {
             work.push((gi, s.id, s.inst));
         }
     }
+    // U-pattern: 3-5 repetitions of variadic operands (a middle element), three-bit masks, bit-pattern literals
+    for s in universe::pattern_shapes(tier) {
+        let Some(gi) = g.lookup(s.inst.opcode) else { continue };
+        if !gi.has_rid() || class_of(&gi.name) != Class::Block || gi.name == "Phi" || s.id.contains(":result=") {
+            continue;
+        }
+        // id positions are retargeted anyway: only the literal / mask / repetition patterns matter here
+        if s.id.contains(":pattern:arg") && matches!(s.inst.args.iter().nth(s.id.rsplit("arg").next().and_then(|x| x.split('=').next()).and_then(|x| x.parse::<usize>().ok()).unwrap_or(0)), Some(crate::model::Arg::IdRef(_)) | Some(crate::model::Arg::IdScope(_)) | Some(crate::model::Arg::IdMemSem(_))) {
+            continue;
+        }
+        work.push((gi, s.id, s.inst));
+    }
     let res: Vec<(Vec<Viol>, &'static str)> = work.par_iter().map(|(gi, id, i)| check_op_shape(gi, id, i, &unsupported)).collect();
     let mut n = 0u64;
     let mut lifted = 0u64;
